@@ -129,11 +129,32 @@ func runC11(p *core.Program, r *core.Report) {
 			if ret, isRet := n.(*ast.ReturnStmt); isRet && len(ret.Results) == 1 {
 				okRet := false
 				e, _ := core.Resolve(info, f.Body, ret.Results[0])
-				for _, c := range core.Calls(e, true) {
-					if core.CalleeFunc(info, c) == self {
-						okRet = true
+				// the recursive call may have been given a name first (`elemLit := d.TypeLit(tpe.Elem())`): operands that
+				// are single-definition locals are looked through
+				var viaLocals func(x ast.Node, depth int) bool
+				viaLocals = func(x ast.Node, depth int) bool {
+					for _, c := range core.Calls(x, true) {
+						if core.CalleeFunc(info, c) == self {
+							return true
+						}
 					}
+					if depth > 3 {
+						return false
+					}
+					hit := false
+					ast.Inspect(x, func(m ast.Node) bool {
+						if id, isID := m.(*ast.Ident); isID && !hit {
+							if v, isVar := info.Uses[id].(*types.Var); isVar && !v.IsField() {
+								if d, single := core.SingleDef(info, f.Body, v); single && d.Rhs != nil && d.Index < 0 && viaLocals(d.Rhs, depth+1) {
+									hit = true
+								}
+							}
+						}
+						return !hit
+					})
+					return hit
 				}
+				okRet = viaLocals(e, 0)
 				if !okRet {
 					// a builder that received the recursive call
 					if bc, isCall := ast.Unparen(e).(*ast.CallExpr); isCall {
@@ -289,7 +310,8 @@ func runC11(p *core.Program, r *core.Report) {
 			for _, a := range atoms {
 				b, ok := ast.Unparen(a.Cond).(*ast.BinaryExpr)
 				if ok && a.Val && b.Op == token.NEQ && constStrIs(info, b.Y, "") {
-					if c, ok := ast.Unparen(b.X).(*ast.CallExpr); ok {
+					bx, _ := core.Resolve(info, f.Body, b.X)
+					if c, ok := ast.Unparen(bx).(*ast.CallExpr); ok {
 						if sel, ok := ast.Unparen(c.Fun).(*ast.SelectorExpr); ok && sel.Sel.Name == "PkgPath" && core.VarOf(info, sel.X) == tpe {
 							guard = true
 						}
@@ -299,7 +321,9 @@ func runC11(p *core.Program, r *core.Report) {
 			if ret, ok := lastStmt(ifs.Body.List).(*ast.ReturnStmt); ok && guard && len(ret.Results) == 1 {
 				if nc := core.AsCall(info, ret.Results[0], core.GM("pkg/gengo/internal", "*Dumper", "Name")); nc != nil {
 					if rc := core.AsCall(info, nc.Args[0], core.G("pkg/types.Ref")); rc != nil && len(rc.Args) == 2 {
-						m0, m1 := methodOn(info, rc.Args[0], tpe), methodOn(info, rc.Args[1], tpe)
+						a0, _ := core.Resolve(info, f.Body, rc.Args[0])
+						a1, _ := core.Resolve(info, f.Body, rc.Args[1])
+						m0, m1 := methodOn(info, a0, tpe), methodOn(info, a1, tpe)
 						okNamed = m0 == "PkgPath" && m1 == "Name"
 					}
 				}
